@@ -30,6 +30,8 @@ func (a Addr) render() string {
 
 // Env holds the envelope relevant header fields; a nil list = header field absent.
 type Env struct {
+	// the field is written with an empty value (only if the value is "")
+	EmptySubject, EmptyInReplyTo       bool
 	Date, Subject                      string
 	From, Sender, ReplyTo, To, Cc, Bcc []Addr
 	InReplyTo, MsgID                   string
@@ -50,6 +52,8 @@ type Node struct {
 	RawLines   []string // header fields written verbatim (may contain folds), without the final line end
 	Prelude    string   // a line without colon in front of the first header field (top level only)
 	// content
+	Bare     bool // a multipart child of length zero: no header, no blank line, no body
+	NoClose  bool // multipart without its closing delimiter (and without epilogue)
 	Body     []byte
 	Children []*Node
 	Boundary string
@@ -71,11 +75,15 @@ func (n *Node) IsMulti() bool { return n.Type == "multipart" && len(n.Children) 
 type Layout struct {
 	Rng     *common.Rng
 	MixEOL  bool // LF / CRLF mixed per line (otherwise CRLF)
-	Fold    bool // fold header values at spaces
+	LF      bool // bare LF everywhere (MixEOL is then ignored)
+	Fold    bool // fold header values at spaces (also directly behind the colon)
 	LowerHN bool // vary the case of header names
 }
 
 func (l *Layout) eol() string {
+	if l.LF {
+		return "\n"
+	}
 	if l.MixEOL && l.Rng.Chance(0.4) {
 		return "\n"
 	}
@@ -94,8 +102,15 @@ func (l *Layout) headerLine(buf *bytes.Buffer, name, value string) {
 	buf.WriteString(name)
 	buf.WriteString(":")
 	if value == "" {
+		// empty value: nothing, or only blanks, between the colon and the line break
+		buf.WriteString([]string{"", "", " ", " \t "}[l.Rng.Pick(4)])
 		buf.WriteString(l.eol())
 		return
+	}
+	if l.Fold && l.Rng.Chance(0.2) {
+		// the value starts on the next line: "Name:" [blanks] EOL WSP value
+		buf.WriteString([]string{"", " ", "  "}[l.Rng.Pick(3)])
+		buf.WriteString(l.eol())
 	}
 	buf.WriteString(" ")
 	if l.Fold {
@@ -170,10 +185,10 @@ func (n *Node) headerLines() []hline {
 		if e.Bcc != nil {
 			hs = append(hs, hline{"Bcc", addrList(e.Bcc)})
 		}
-		if e.Subject != "" {
+		if e.Subject != "" || e.EmptySubject {
 			hs = append(hs, hline{"Subject", e.Subject})
 		}
-		if e.InReplyTo != "" {
+		if e.InReplyTo != "" || e.EmptyInReplyTo {
 			hs = append(hs, hline{"In-Reply-To", e.InReplyTo})
 		}
 		if e.MsgID != "" {
@@ -215,6 +230,11 @@ func (n *Node) headerLines() []hline {
 // render appends the node to buf; base is the absolute offset of buf[0] in the top-level message.
 func (n *Node) render(buf *bytes.Buffer, l *Layout, top bool) {
 	n.HStart = buf.Len()
+	if n.Bare {
+		n.HNames, n.HLines, n.Blank = nil, nil, nil
+		n.BStart, n.End = n.HStart, n.HStart
+		return
+	}
 	if n.Prelude != "" {
 		buf.WriteString(n.Prelude)
 		buf.WriteString(l.eol())
@@ -258,12 +278,14 @@ func (n *Node) render(buf *bytes.Buffer, l *Layout, top bool) {
 			buf.WriteString(l.eol())
 			c.render(buf, l, false)
 		}
-		buf.WriteString(l.eol())
-		buf.WriteString("--" + n.Boundary + "--")
-		if len(n.Epilogue) > 0 || l.Rng.Chance(0.7) {
+		if !n.NoClose {
 			buf.WriteString(l.eol())
+			buf.WriteString("--" + n.Boundary + "--")
+			if len(n.Epilogue) > 0 || l.Rng.Chance(0.7) {
+				buf.WriteString(l.eol())
+			}
+			buf.Write(n.Epilogue)
 		}
-		buf.Write(n.Epilogue)
 	default:
 		buf.Write(n.Body)
 	}
@@ -301,6 +323,11 @@ type Gen struct {
 	// C13: part numbering of a message whose own type is message/rfc822 is not exercised
 	NoTopMsg   bool
 	NoMsgInMsg bool
+	// with NoMsgInMsg: still generate chains message/rfc822 > message/rfc822 > ... that end in a single part
+	MsgChainLeaf bool
+	Bare         bool // zero-length multipart children
+	NoClose      bool // multiparts without closing delimiter
+	EmptyFields  bool // header fields that are read (Subject, In-Reply-To, Content-Description, Content-Type) with an empty value
 }
 
 var words = []string{"alpha", "beta", "gamma", "delta", "re:", "fwd", "hello", "world", "x", "report", "2024", "q&a", "[list]", "a+b", "50%", "it's"}
@@ -367,9 +394,13 @@ func (g *Gen) EnvFor(top bool) *Env {
 	}
 	if g.Rng.Chance(0.8) {
 		e.Subject = g.phrase(5)
+	} else if g.EmptyFields && g.Rng.Chance(0.5) {
+		e.EmptySubject = true
 	}
 	if g.Rng.Chance(0.3) {
 		e.InReplyTo = fmt.Sprintf("<irt%d@ex.org>", g.Rng.Pick(1000))
+	} else if g.EmptyFields && g.Rng.Chance(0.15) {
+		e.EmptyInReplyTo = true
 	}
 	if g.Rng.Chance(0.6) {
 		e.MsgID = fmt.Sprintf("<m%d@example.com>", g.Rng.Pick(100000))
@@ -412,7 +443,11 @@ func (g *Gen) text(max int, eolMix bool) []byte {
 
 func (g *Gen) boundary() string {
 	g.bcount++
-	switch g.Rng.Pick(4) {
+	k := g.Rng.Pick(4)
+	if g.bcount >= 10 && (k == 0 || k == 3) {
+		k = 1 // keep "XXn" from being a prefix of "XXnm"
+	}
+	switch k {
 	case 0:
 		return fmt.Sprintf("XX%d", g.bcount)
 	case 1:
@@ -519,8 +554,15 @@ func (g *Gen) Tree(depth int, top bool, eolMix bool) *Node {
 			g.contentExtras(n)
 			n.ID, n.Desc, n.Enc, n.MD5 = "", "", "", "" // not reported for multiparts
 		}
+		if g.NoClose && g.Rng.Chance(0.2) {
+			n.NoClose, n.Epilogue = true, nil
+		}
 		k := g.Rng.Range(1, 3)
 		for i := 0; i < k; i++ {
+			if g.Bare && g.Rng.Chance(0.12) && !(n.NoClose && i == k-1) {
+				n.Children = append(n.Children, &Node{Bare: true, Type: "text", Sub: "plain"})
+				continue
+			}
 			n.Children = append(n.Children, g.Tree(depth-1, false, eolMix))
 		}
 	default: // message/rfc822
@@ -537,8 +579,32 @@ func (g *Gen) Tree(depth int, top bool, eolMix bool) *Node {
 		if g.NoMsgInMsg && n.Embedded.IsMsg() {
 			n.Embedded = g.Tree(0, false, eolMix)
 		}
+		if g.MsgChainLeaf && g.Rng.Chance(0.35) {
+			n.Embedded = g.msgChain(g.Rng.Range(1, 2), eolMix)
+		}
 		n.Embedded.Env = g.EnvFor(false)
 	}
+	if g.EmptyFields && !n.Bare {
+		if n.Desc == "" && g.Rng.Chance(0.1) {
+			n.Extra = append(n.Extra, "Content-Description:")
+		}
+		if !n.HasCT && g.Rng.Chance(0.1) {
+			n.Extra = append(n.Extra, "Content-Type:")
+		}
+	}
+	return n
+}
+
+// msgChain: k nested messages whose own type is message/rfc822, the innermost embedding a single part.
+func (g *Gen) msgChain(k int, eolMix bool) *Node {
+	n := &Node{HasCT: true, Type: "message", Sub: "rfc822"}
+	g.contentExtras(n)
+	if k > 1 {
+		n.Embedded = g.msgChain(k-1, eolMix)
+	} else {
+		n.Embedded = g.Tree(0, false, eolMix)
+	}
+	n.Embedded.Env = g.EnvFor(false)
 	return n
 }
 
